@@ -434,6 +434,16 @@ func GenAV1(r *Rng) []byte {
 			}
 			if r.Intn(15) == 0 {
 				b = append(b, 0x80, 0x80, 0x80, 0x80, 0x01)
+			} else if r.Intn(12) == 0 {
+				// over-long sizes: 9 and 10 bytes of LEB128 with the high bits set (2^63 and beyond when taken for a uvarint)
+				switch r.Intn(3) {
+				case 0:
+					b = append(b, 0xff, 0xff, 0xff, 0xff, 0xff, 0xff, 0xff, 0xff, 0xff, 0x01)
+				case 1:
+					b = append(b, 0x80, 0x80, 0x80, 0x80, 0x80, 0x80, 0x80, 0x80, 0x80, 0x01)
+				default:
+					b = append(b, 0xf0, 0xff, 0xff, 0xff, 0xff, 0xff, 0xff, 0xff, 0x7f)
+				}
 			} else {
 				b = append(b, leb(l)...)
 			}
